@@ -298,9 +298,6 @@ class Network(ElementBase):
             self._graph.add_node(node, **{DESTINATIONENTRY: destination})
         else:
             self.nodes[node][DESTINATIONENTRY] = destination
-        self.destinations_by_name[
-            destination.name
-        ] = destination  # type: ignore[assignment]
         return self
 
     def add_path(
